@@ -55,6 +55,20 @@ CLAIMED = {
              "standard offline).",
         technique="Coq proof: translated decision trees + finite-abstraction theorem + vm_compute check; "
                   "induction for the stream-level statements; differential correspondence"),
+    "C19": dict(
+        category="proof",
+        text="Theorems over the model of to_sax (prefix table and qualified-name table regenerated from the source): "
+             "for ALL token streams the event list is startDocument, the prefix mappings, element/character events "
+             "only, the same prefixes ended, endDocument; for EVERY forest (void elements childless) the events of "
+             "its walk are accepted by a stack consumer (proper nesting) and rebuild exactly the forest minus "
+             "comments/doctype with adjacent character data concatenated (induction over trees with a simulation "
+             "lemma); the qualified names of all 12 foreign attributes resolve to declared prefixes. Model tied to "
+             "the code by exact-agreement correspondence on token streams and on parsed documents.",
+        design_ref="DESIGN.md 3 C19",
+        note="walk_spec (Base/Tree.v) is the specification of a walker stream; its agreement with the real walkers "
+             "is C11's business and is also exercised here (documents go through the real dom walker).",
+        technique="Coq proof (structural induction over trees, simulation of the event consumer) + translated "
+                  "tables + differential correspondence"),
 }
 
 PENDING_REASON = "not yet built in this round (planned: Coq model + theorems per DESIGN.md section 3); no check is registered, so nothing is claimed"
